@@ -256,6 +256,7 @@ def _pair(ctx):
         run.add('C06.pair', hm.module.name, f'CppHelperMethods.{nm}', attr, ok,
                 f'{nm} renders {attr} of every helper' if ok else f'{nm} does not render {attr} of every helper')
     run.floor('C06.pair', 6)
+    _complete_views(ctx)
 
 
 def _ns(ctx):
@@ -380,6 +381,67 @@ def _recipe_kwargs(prog, m: FuncInfo, rec: TObj) -> Dict[str, Any]:
         elif name == 'DznElements':
             out[a.arg] = rec.fields['dzn_elements']
     return out
+
+
+def _complete_views(ctx):
+    """C06.members: what the header declares per port / facility ranges over the COMPLETE collection.  The aggregated
+    properties of CppPorts (member variables, accessor declarations and definitions) are evaluated symbolically (E4) over an
+    arbitrary port list; a repetition over a partial view - the last group of an unsorted itertools.groupby, a slice - leaves
+    a member of some port undeclared while the source file still initialises and uses it."""
+    from ..template import TAlt, TBlock, TList, RepL, AltL, AltS, RepS, TOpaque
+    run, prog = ctx.run, ctx.prog
+    cp = prog.cls('adv_shell.common', 'CppPorts')
+    if cp is None:
+        return
+    ev = Evaluator(prog, ctx.cg)
+
+    def sources(v, out, depth=0):
+        if depth > 60:
+            return
+        if isinstance(v, TAlt):
+            sources(v.a, out, depth + 1)
+            sources(v.b, out, depth + 1)
+        elif isinstance(v, (TBlock, TList)):
+            for x in v.items:
+                sources(x, out, depth + 1)
+        elif isinstance(v, (RepL,)):
+            out.append(v.src)
+            for x in v.items:
+                sources(x, out, depth + 1)
+        elif isinstance(v, AltL):
+            for x in v.a + v.b:
+                sources(x, out, depth + 1)
+        elif isinstance(v, TStr):
+            for p_ in v.parts:
+                if isinstance(p_, AltS):
+                    sources(p_.a, out, depth + 1)
+                    sources(p_.b, out, depth + 1)
+                elif isinstance(p_, RepS):
+                    out.append(p_.src)
+                    sources(p_.elem, out, depth + 1)
+        elif isinstance(v, TObj):
+            for x in v.fields.values():
+                sources(x, out, depth + 1)
+    for name in ('rerouting_class_members', 'accessors_decl', 'accessors_def'):
+        m = cp.methods.get(name)
+        if m is None:
+            continue
+        selfv = TObj(cp, {'ports': Sym('ports', (), ('list', ('cls', 'dznpy.adv_shell.common.CppPortItf')))})
+        try:
+            val = ev.call_function(m, [], {}, 0, self_val=selfv)
+        except AnalysisError:
+            continue
+        if isinstance(val, TOpaque):
+            continue            # not evaluated: nothing is claimed
+        srcs: list = []
+        sources(val, srcs)
+        port_srcs = [s_ for s_ in srcs if isinstance(getattr(s_, 'base', None), Sym) and s_.base.root == 'ports']
+        partial = sorted({s_.order for s_ in port_srcs if s_.order.startswith('partial')} |
+                         {'slice' for s_ in port_srcs if any('[' in p_ for p_ in s_.base.path)})
+        run.add('C06.members', cp.module.name, f'CppPorts.{name}', f'{len(port_srcs)} repetitions over the ports', not partial,
+                f'{name} renders its entry for every port of the list (no partial view)' if not partial else
+                f'{name} ranges over a partial view of the ports ({"; ".join(partial)}): for some port order a member is left out of the '
+                f'header although the source file initialises and uses it - the generated shell does not compile')
 
 
 def _frames(ctx) -> Dict[Tuple[str, bool], TStr]:
